@@ -19,6 +19,7 @@ type c20Ctl struct {
 	spec      Object
 	why       string
 	customize bool // the current spec has a customize hook (related Secrets)
+	longHook  bool // the current spec gives its sync hook 30 s (a held call then outlasts 10 s)
 }
 
 // C20Scenario: hosted controllers follow their CompositeController / DecoratorController objects.
@@ -73,6 +74,10 @@ func C20Scenario() *Scenario {
 				cfg.Customize = t.Pick(3, "customize") == 2
 				c.customize = cfg.Customize
 				o := cfg.Object()
+				c.longHook = t.Pick(3, "long-hook-timeout") == 2
+				if c.longHook {
+					setPath(o, "30s", "spec", "hooks", "sync", "webhook", "timeout")
+				}
 				c.parentRes, c.childRes = ResThing, nil
 				for _, ch := range cfg.Children {
 					c.childRes = append(c.childRes, ch.Res)
@@ -110,6 +115,10 @@ func C20Scenario() *Scenario {
 					Attachments: []ChildRule{{Res: ResConfigMap, Method: "InPlace"}}}
 				cfg.Finalize = t.Pick(3, "fin") == 2
 				o := cfg.Object()
+				c.longHook = t.Pick(3, "long-hook-timeout") == 2
+				if c.longHook {
+					setPath(o, "30s", "spec", "hooks", "sync", "webhook", "timeout")
+				}
 				c.parentRes, c.childRes = ResTarget, []*Resource{ResConfigMap}
 				switch variant {
 				case 0:
@@ -212,11 +221,21 @@ func C20Scenario() *Scenario {
 						opName = "noop-update " + c.kind + "/" + c.name
 					default:
 						oldVer, wasRunning := c.ver, c.exists && c.startable
+						oldLongHook := c.longHook
 						var held *HookRec
 						if wasRunning && t.Pick(3, "busy") == 2 {
 							// the spec changes while a sync of the running instance is in flight: its
 							// parents are poked and the webhook takes its time over one of the calls
 							for _, o := range w.Store.List(c.parentRes, "") {
+								// (one child of each goes missing first, so that the sync in flight has
+								// something to write once its hook call is answered)
+								for _, cr := range c.childRes {
+									if kids := ControlledBy(w.Store, cr, mstr(o, "uid")); len(kids) > 0 {
+										EditObject(w, cr, mstr(kids[0], "namespace"), mstr(kids[0], "name"), "user", func(k Object) { delete(meta(k), "finalizers") })
+										w.Store.Delete(cr, mstr(kids[0], "namespace"), mstr(kids[0], "name"), DeleteOpts{}, "user")
+										break
+									}
+								}
 								EditObject(w, c.parentRes, mstr(o, "namespace"), mstr(o, "name"), "user", func(o Object) { setPath(o, fmt.Sprint(w.step), "metadata", "annotations", "busy") })
 							}
 							parkedOld := func() *HookRec {
@@ -305,6 +324,13 @@ func C20Scenario() *Scenario {
 									}
 									if seen {
 										break
+									}
+									if i == 4 && oldLongHook {
+										// the webhook of the old version takes 12 s over the call it is
+										// still holding (its time limit is 30 s): whoever stops the old
+										// instance has to wait that long
+										w.SleepHard(12 * time.Second)
+										w.Probe("c20:held-sync-outlasts-ten-seconds")
 									}
 									w.StepOnce(holdOne)
 								}
